@@ -5,7 +5,7 @@
    reference of the server's documented layout and shape numbers. *)
 From Coq Require Import ZArith QArith Qabs Reals String List Permutation Sorting.Sorted.
 Require Import SC3.lib.PyNum SC3.gen.Gen_envtables SC3.gen.Gen_builtinsR SC3.gen.Gen_envR SC3.model.Env.
-Require Import SC3.proofs.C19_format SC3.proofs.C19_at SC3.proofs.C19_shapes SC3.proofs.C19_ctor SC3.proofs.C19_real.
+Require Import SC3.proofs.C19_format SC3.proofs.C19_at SC3.proofs.C19_shapes SC3.proofs.C19_ctor SC3.proofs.C19_real SC3.proofs.C19_mc.
 Import ListNotations.
 Open Scope list_scope.
 
@@ -47,6 +47,24 @@ Theorem env_format_invalid_name : forall e l0 lv' t tm',
   levels e = l0 :: lv' -> times e = t :: tm' -> lv' <> [] -> curves e <> [] ->
   valid_curve (wrap_at (curves e) 0 (CName "")) = false -> envgen_format e = Err ValueError.
 Proof. exact envgen_format_invalid_name. Qed.
+
+(* --- multichannel envelopes (list items among levels / times / curves): _envgen_format returns one
+       array per channel through utl.flop; there are max-item-width channels and channel j IS the
+       single-channel array of the envelope's j-th projection (every list item at j mod its length),
+       so it decodes with the server's layout and evaluates like that projection ------------------- *)
+Theorem mc_format_expansion : forall e chans, mc_envgen_format e = Ok chans ->
+  exists cs, mc_contents e = Ok cs /\ length chans = width cs /\ (1 <= width cs)%nat /\
+  forall j, (j < width cs)%nat -> envgen_format (project e j) = Ok (nth j chans []).
+Proof. exact mc_expansion. Qed.
+Theorem mc_format_channels_decode : forall e chans j, mc_envgen_format e = Ok chans -> (j < length chans)%nat ->
+  wf_env (project e j) ->
+  decode_env (nth j chans []) = Ok (normalise (project e j))
+  /\ length (nth j chans []) = (4 + 4 * length (m_times e))%nat.
+Proof. exact mc_channels_decode. Qed.
+Theorem mc_at_is_channelwise : forall e t vs, mc_env_at e t = Ok vs ->
+  exists chans, mc_envgen_format e = Ok chans /\ length vs = length chans /\
+  forall j, (j < length chans)%nat -> env_at (project e j) t = Ok (nth j vs 0%Q).
+Proof. exact mc_at_channels. Qed.
 
 (* --- constructors: documented breakpoints (time, level), release node, curves -------------------- *)
 Open Scope Q_scope.
@@ -125,6 +143,10 @@ Theorem ctor_breakpoints_xyc_sorted : forall pts s0 sr,
   /\ offset e = Some (pt_time s0) /\ curves e = removelast (map snd s)
   /\ release e = None /\ loop e = None.
 Proof. exact xyc_breakpoints. Qed.
+(* the sort is STABLE: the points of any one time keep the order in which they were given *)
+Theorem ctor_xyc_sort_stable : forall k pts, Forall (fun q => ok (pt_time q)) pts ->
+  filter (same_time k) (sort_pts pts) = filter (same_time k) pts.
+Proof. exact sort_pts_stable. Qed.
 (* pairs attaches 'lin' / the one curve / the i-th curve to the i-th pair (ValueError when the lengths
    differ) and is xyc of the result *)
 Theorem ctor_pairs_is_xyc : forall ps c,
@@ -306,8 +328,25 @@ Proof. eexists. split; [reflexivity|]. split; [reflexivity|reflexivity]. Qed.
 Example ex_times_nonneg : times_nonneg ex_env.
 Proof. repeat constructor; discriminate. Qed.
 
+Definition ex_menv : menv :=
+  menv_init [MS (I 0); ML [I 1; I 2; I 3]; MS (I 0)] [MS (I 1); ML [I 2; I 3]]
+            [MCS (CName "lin"); MCL [CName "sin"; CNum (I (-2))]] (Some 1%Z) (Some 0%Z) (Some (I 0)).
+Example ex_menv_format : mc_envgen_format ex_menv = Ok
+  [[I 0; I 2; I 1; I 0; I 1; I 1; I 1; I 0; I 0; I 2; I 3; I 0];
+   [I 0; I 2; I 1; I 0; I 2; I 1; I 1; I 0; I 0; I 3; I 5; I (-2)];
+   [I 0; I 2; I 1; I 0; I 3; I 1; I 1; I 0; I 0; I 2; I 3; I 0]].
+Proof. vm_compute. reflexivity. Qed.
+Example ex_menv_wf : wf_env (project ex_menv 1).
+Proof. split; [discriminate|]. split; [reflexivity|]. intros _. split; [discriminate|reflexivity]. Qed.
+Example ex_stable : map (fun p => snd (fst p))
+    (sort_pts [(I 1, I 5, CName "lin"); (I 0, I 3, CName "lin"); (F 1, I 4, CName "lin"); (I 0, I 2, CName "lin")])
+  = [I 3; I 2; I 5; I 4].
+Proof. vm_compute. reflexivity. Qed.
+
 Print Assumptions env_format_layout.
 Print Assumptions env_at_between_neighbours.
 Print Assumptions cub_segment_starts_on_its_side_R.
 Print Assumptions env_at_total.
 Print Assumptions ctor_breakpoints_pairs.
+Print Assumptions mc_format_expansion.
+Print Assumptions ctor_xyc_sort_stable.
